@@ -60,6 +60,33 @@ def shapes(kind):
     return [Built([], make_self, lambda a: "<target>", lambda a: None), Built([], make_value, lambda a: "<value>", lambda a: None), Built([], lambda env: "unsigned", lambda a: "'unsigned'", lambda a: None)]
 
 
+# ---- bool from a literal: construction and assignment agree -------------------------------------------------------------------
+# `sig <<= "0"` assigns false (_Boolean._assign); the constructor is used by initialisations (`Signal[bool]("0")`,
+# `Variable[bool]("0")`), branch merges and return merges: the same literal must denote the same truth value there
+# (Python's bool("0") is True).  Strings other than "0" / "1" have no truth value here: rejected by both.
+from cohdl._core._boolean import _Boolean  # noqa: E402
+
+BOOL_LITERALS = {"'0'": ("0", False), "'1'": ("1", True), "True": (True, True), "False": (False, False), "0": (0, False), "1": (1, True), "'x'": ("x", None), "''": ("", None), "'01'": ("01", None)}
+
+
+def bool_spec(want):
+    def spec(sx, self, *value):
+        if want is None:
+            sx.reject(AssertionError)
+        real = sx.real_args[0]
+        return C.Pred(lambda res: real.fields.get("_value") is want, f"represents {want}")
+
+    return spec
+
+
+for _fn in ("__init__", "_assign"):
+    _bc = contract(f"cohdl._core._boolean:_Boolean.{_fn}", PROPS)
+    for _nm, (_lit, _want) in BOOL_LITERALS.items():
+        c = Case(f"literal:{_nm}", [Built([], lambda env: SObj(_Boolean, _value=None), lambda a: "<bool>", lambda a: None), Built([], (lambda v: lambda env: v)(_lit), lambda a: _nm, lambda a: None)], bool_spec(_want))
+        c.native = False
+        _bc.cases.append(c)
+
+
 con = contract("cohdl._core._type_qualifier:TypeQualifier._check_cast_setter", PROPS)
 for kind in ("same-object", "view-of-same-root", "other-object-equal-value", "view-of-other-root", "int", "str"):
     c = Case(f"value:{kind}", shapes(kind), setter_spec(kind))
